@@ -443,7 +443,7 @@ def candidates(scn):
 
 
 BUDGET = {
-    "quick": {"runs": 4000, "seconds": 45, "selfcheck": 3, "crosscheck": 12},
+    "quick": {"runs": 7000, "seconds": 45, "selfcheck": 3, "crosscheck": 12},
     "thorough": {"runs": 200000, "seconds": 1200, "selfcheck": 20, "crosscheck": 60},
 }
 
